@@ -169,30 +169,35 @@ package consensus
 //@   requires m != nil
 //@   modifies nothing
 //@   ensures [stepInRange] err == nil ==> 1 <= m.Step && m.Step <= 8
+//@   ensures [everyValidStepAccepted] 1 <= m.Step && m.Step <= 8 ==> err == nil
 //@ func (m *NewRoundStepMessage) ValidateHeight(initialHeight uint64) (err error)
 //@   for C18
 //@   safe
 //@   requires m != nil
 //@   modifies nothing
 //@   ensures [heightAndLastCommitRoundAgree] err == nil ==> m.Height >= initialHeight && (m.Height == initialHeight <==> m.LastCommitRound == 0)
+//@   ensures [consistentHeightsAccepted] m.Height >= initialHeight && (m.Height == initialHeight <==> m.LastCommitRound == 0) ==> err == nil
 //@ func (m *NewValidBlockMessage) ValidateBasic() (err error)
 //@   for C18
 //@   safe
 //@   requires m != nil && (m.BlockParts != nil ==> cmn.wfBitsOrEmpty(m.BlockParts))
 //@   modifies nothing
 //@   ensures [partsBitArrayMatchesHeaderAndIsBounded] err == nil ==> m.BlockParts != nil && cmn.wfBits(m.BlockParts) && m.BlockParts.Bits == m.BlockPartsHeader.Total && 0 < m.BlockParts.Bits && m.BlockParts.Bits <= types.MaxBlockPartsCount
+//@   ensures [wellFormedMessagesAccepted] m.BlockParts != nil && cmn.wfBits(m.BlockParts) && 0 < m.BlockParts.Bits && m.BlockParts.Bits == m.BlockPartsHeader.Total && m.BlockParts.Bits <= types.MaxBlockPartsCount ==> err == nil
 //@ func (m *ProposalPOLMessage) ValidateBasic() (err error)
 //@   for C18
 //@   safe
 //@   requires m != nil && (m.ProposalPOL != nil ==> cmn.wfBitsOrEmpty(m.ProposalPOL))
 //@   modifies nothing
 //@   ensures [polBitArrayNotEmpty] err == nil ==> m.ProposalPOL != nil && cmn.wfBits(m.ProposalPOL) && m.ProposalPOL.Bits > 0
+//@   ensures [nonEmptyPolAccepted] m.ProposalPOL != nil && cmn.wfBits(m.ProposalPOL) && m.ProposalPOL.Bits > 0 ==> err == nil
 //@ func (m *HasVoteMessage) ValidateBasic() (err error)
 //@   for C18
 //@   safe
 //@   requires m != nil
 //@   modifies nothing
 //@   ensures [voteTypeKnown] err == nil ==> m.Type == kproto.PrevoteType || m.Type == kproto.PrecommitType
+//@   ensures [knownVoteTypesAccepted] m.Type == kproto.PrevoteType || m.Type == kproto.PrecommitType ==> err == nil
 //@ func (m *VoteSetMaj23Message) ValidateBasic() (err error)
 //@   for C18
 //@   safe
@@ -212,6 +217,7 @@ package consensus
 //@   requires m != nil && m.Part != nil
 //@   modifies nothing
 //@   ensures [partSizeBounded] err == nil ==> len(m.Part.Bytes) <= types.BlockPartSizeBytes
+//@   ensures [fullSizePartsAccepted] len(m.Part.Bytes) <= types.BlockPartSizeBytes ==> err == nil
 
 //@ func CompareHRS(h1 uint64, r1 uint32, s1 cstypes.RoundStepType, h2 uint64, r2 uint32, s2 cstypes.RoundStepType) (r int)
 //@   for C18
